@@ -389,3 +389,69 @@ def due_timeout_family(report, prop, label="due-timeout-while-writing"):
     report.obligation("corr:" + label, "correspondence", ok, f"{len(scripts)} scripted scenarios, every response compared")
     report.obligation("mon:" + label, "monitor", mon and judged > 0, f"{judged} states with a half-written operation and another operation's timeout pending: the reported time is not later than that timeout")
     return ok and mon
+
+
+def ping_behind_large_publish_family(report, prop="C14", label="ping-behind-publish"):
+    """a ping falls due while a publish that needs many buffers is being written (writes complete, one per step): the
+    PINGREQ waits behind it.  The server cannot answer a PINGREQ it has not been sent: no keep-alive failure before a
+    PINGREQ has been on the wire for min(ping timeout, K/2), whatever buffer size and pace.  K = 1 s, ping timeout 30 s."""
+    from gv import harness_batch, resp_fields, unhex
+    scripts = []
+    for v in ("5", "311"):
+        connack = "x20020000" if v == "311" else "x2003000000"
+        for cap in (16, 64, 256):
+            for pace in (50, 150, 400):
+                size = cap * 14
+                sc = [f"eng.new v={v} policy=all drain=none pingto=30000 resolver=none rmax=2 | ka=1 cid=x636c6b",
+                      "eng.open t=0 deadline=1000", "eng.svc t=0 cap=4096 prefill=0", "eng.wc t=0", f"eng.data t=0 b={connack}",
+                      f"eng.pub t=900 | publish pid=0 topic=x742f30 qos=1 retain=0 payload=x{'00' * size}"]
+                t = 900
+                for _ in range(18):
+                    sc += [f"eng.svc t={t} cap={cap} prefill=0", f"eng.wc t={t + pace - 1}"]
+                    t += pace
+                scripts.append(sc)
+    reqs, starts = [], []
+    for sc in scripts:
+        starts.append(len(reqs))
+        reqs.append("session.reset")
+        reqs += sc
+    impl = harness_batch(reqs)
+    model = driver_batch(reqs)
+    ok, mon, bad = True, True, 0
+    for k, st in enumerate(starts):
+        end = starts[k + 1] if k + 1 < len(starts) else len(reqs)
+        report.case("|".join(x[:80] for x in reqs[st + 1:end]))
+        for i in range(st, end):
+            if canon(impl[i]) != canon(model[i]):
+                if bad < 4:
+                    report.add_finding(Finding(prop, "corr:" + label, {"clause": "model-vs-impl", "verb": reqs[i].split(" ")[0]},
+                                               "ping behind a large publish: implementation and model disagree", [x[:200] for x in reqs[st + 1:i + 1]] + ["# impl:  " + impl[i][:300], "# model: " + model[i][:300]], has_input=False))
+                ok = False
+                bad += 1
+                break
+        # the wire of this connection, step by step; the time the first complete PINGREQ (c0 00) left the client
+        wire = b""
+        ping_written_at = None
+        for i in range(st, end):
+            f, _ = resp_fields(impl[i])
+            if reqs[i].startswith("eng.svc"):
+                t = int(reqs[i].split("t=")[1].split(" ")[0])
+                before = len(wire)
+                wire += unhex(f.get("bytes", "x")) if f.get("bytes") else b""
+                if ping_written_at is None:
+                    from walk import split_packets
+                    pkts, _, _ = split_packets(wire)
+                    if any(first == 0xC0 for first, _ in pkts):
+                        ping_written_at = t
+                if f.get("res", "").startswith("err:ConnectionClosed") and (ping_written_at is None or t < ping_written_at + 500):
+                    mon = False
+                    if bad < 8:
+                        report.add_finding(Finding(prop, "mon:" + label, {"clause": "live-peer-timed-out"},
+                                                   f"keep-alive failure at {t} ms: " + ("no PINGREQ has left the client yet" if ping_written_at is None else f"the PINGREQ went out at {ping_written_at} ms, the server has until {ping_written_at + 500} ms")
+                                                   + f" ({len(wire)} bytes written so far, the publish still being sent)", [x[:200] for x in reqs[st + 1:i + 1]]))
+                    bad += 1
+                    break
+    report.count(label + ".scenarios", len(scripts))
+    report.obligation("corr:" + label, "correspondence", ok, f"{len(scripts)} scripted scenarios (versions x buffer sizes x write pace), every response compared")
+    report.obligation("mon:" + label, "monitor", mon, "no keep-alive failure before a PINGREQ has been on the wire for min(ping timeout, K/2)")
+    return ok and mon
